@@ -222,6 +222,10 @@ def explore_one(pid, pair, prog, do_twins, rnd):
     if prog.get("unmodelled"):
         # inputs the model does not describe (a result of a value-typed error): the implementation's trace is judged alone
         it = pair.impl.ask(json.dumps(prog, separators=(",", ":")))
+        unb = any(isinstance(o, dict) and o.get("v") == "unbuildable" for o in it.get("ops", []))
+        if unb or it.get("fatal") in ("bad-types", "bad-request"):
+            # the executor could not build the program (not an outcome of dig): skipped, as below
+            return fails, {"nontrivial": False, "skipped": True, "mt": {"ops": []}, "it": it, "unmodelled": True}
         bad = props.PRED[pid](prog, it)
         if bad:
             fails.append({"kind": "predicate", "descr": "%s: %s" % (prog["unmodelled"], bad[0]), "program": prog})
@@ -256,6 +260,7 @@ def explore_one(pid, pair, prog, do_twins, rnd):
         bad, ntext, nsame = k_dottext(pair, prog, it)
         if bad:
             fails.append({"kind": "correspondence", "descr": "K-dottext: " + bad, "program": prog})
+    known = []
     if do_twins and not fails:
         run = lambda p: pair.impl.ask(json.dumps(p, separators=(",", ":")))   # noqa: E731
         tb = []
@@ -265,9 +270,13 @@ def explore_one(pid, pair, prog, do_twins, rnd):
             tb, tp = props.twin_c16(prog, run, rnd)
         elif pid == "C17":
             tb, tp = props.twin_c17(prog, run)
+        # a listed open finding (KNOWN_FINDINGS.txt) is counted, not reported as a violation; anything else is
+        known = [x[len(props.KNOWN_PREFIX):] for x in tb if x.startswith(props.KNOWN_PREFIX)]
+        tb = [x for x in tb if not x.startswith(props.KNOWN_PREFIX)]
         if tb:
             fails.append({"kind": "twin", "descr": tb[0], "program": prog})
-    return fails, {"nontrivial": props.nontrivial(pid, prog, it), "mt": mt, "it": it, "dottext": ntext, "dottext_same": nsame}
+    return fails, {"nontrivial": props.nontrivial(pid, prog, it), "mt": mt, "it": it, "dottext": ntext, "dottext_same": nsame,
+                   "known": known}
 
 
 def _canon_ast(ast):
@@ -344,6 +353,9 @@ def worker(args):
         fails.extend(fs[:1])
         if st.get("skipped"):
             skipped += 1
+        for kf in st.get("known") or []:
+            key = "known-finding:%s met (listed open in KNOWN_FINDINGS.txt, not a violation)" % kf.split()[0]
+            dist[key] = dist.get(key, 0) + 1
         if st.get("dottext"):
             dist["dottext:texts-compared-as-documents"] = dist.get("dottext:texts-compared-as-documents", 0) + st["dottext"]
             dist["dottext:identical-byte-for-byte"] = dist.get("dottext:identical-byte-for-byte", 0) + st.get("dottext_same", 0)
@@ -530,6 +542,8 @@ def main():
     for name, prog in corpus_programs(pid):
         fs, st = explore_one(pid, pair, prog, True, random.Random(0))
         ncorpus += 1
+        for kf in st.get("known") or []:
+            log("corpus/%s: open finding %s" % (name, kf[:160]))
         for f in fs:
             f["seed"] = "corpus/" + name
         fails.extend(fs[:1])
@@ -729,6 +743,10 @@ def replay(pid, path):
             print("%s: %s" % (f["kind"], f["descr"]))
         print("VIOLATION property=%s replay=%s" % (pid, path))
         return 1
+    if st.get("known"):
+        for kf in st["known"]:
+            print("KNOWN-FINDING: property=%s %s" % (pid, kf))
+        return 0
     print("replay passes: the property holds on this program now")
     return 0
 
